@@ -66,6 +66,11 @@ def gen_residue(rng, resid, force=None):
             prev = nm if rng.random() < 0.5 else anchor
     if pres == 'modification' and 'CA' in names:
         req['modification'] = ['MOD']
+        if 'N' in names and any(a['ref'] == 'N' for a in atoms) and rng.random() < 0.5:
+            # a second modification requested on the same residue: both must end up in the reference
+            atoms.append({'name': 'XS', 'el': 'S', 'ref': 'XS'})
+            bonds.append(['N', 'XS'])
+            req['modification'] = ['MOD', 'MOD2'] if rng.random() < 0.5 else ['MOD2', 'MOD']
     elif pres == 'modification':
         req['modification'] = ['none']
     if pres == 'mutation':
@@ -171,6 +176,12 @@ def _ff():
     mod.add_node('XP', atomname='XP', PTM_atom=True, element='P')
     mod.add_edge('CA', 'XP')
     ff.modifications['MOD'] = mod
+    mod2 = vm.Link(force_field=ff)
+    mod2.name = 'MOD2'
+    mod2.add_node('N', atomname='N', PTM_atom=False, element='N')
+    mod2.add_node('XS', atomname='XS', PTM_atom=True, element='S')
+    mod2.add_edge('N', 'XS')
+    ff.modifications['MOD2'] = mod2
     return ff
 
 
